@@ -6,6 +6,8 @@ What is taken from the source on every run:
     POISON_SIZE without and with -fsanitize=address, MAX_SOURCE_LOCATIONS
                                     compile-and-print of a program that #includes arena.c
                                     (cc for the normal build, clang -fsanitize=address for the ASan build)
+  * shrink_validated              position of the arena_scope_validate call of arena_realloc_fast relative to its
+                                    "if (new_size <= old_size) { ... return 1; }" block (the model's switch c_sv)
   * the three expressions the model transcribes literally must still be there
     (rounding in align_address, clipping in arena_push, rewinding in arena_scope_leave);
     the translator raises when one of them no longer matches.
@@ -38,6 +40,32 @@ PATTERNS = {
 
 def squash(text):
     return re.sub(r'\s+', ' ', text)
+
+
+def shrink_validated(src):
+    """Does arena_realloc_fast call arena_scope_validate on the path that returns a shrunk block?
+    (False for the source as it is: 'Always allow existing allocations to shrink' returns first;
+    True with findings/C19_outer_shrink.diff.)  Raises when the function no longer has the shape
+    the model transcribes: one 'if (new_size <= old_size) { ... return 1; }' block."""
+    m = re.search(r'\narena_realloc_fast\(struct arena_scope \*s, char \*ptr, size_t old_size,\s*size_t new_size\)\s*\{(.*?)\n\}',
+                  src, re.S)
+    if not m:
+        raise RuntimeError('t_arena: definition of arena_realloc_fast not found in arena.c')
+    body = re.sub(r'/\*.*?\*/', ' ', m.group(1), flags=re.S)
+    flat = squash(body)
+    ifs = [x.start() for x in re.finditer(r'if \(new_size <= old_size\) \{', flat)]
+    if len(ifs) != 1:
+        raise RuntimeError('t_arena: arena_realloc_fast no longer has exactly one "if (new_size <= old_size) {" block')
+    start = ifs[0]
+    end = flat.find('}', start)
+    block = flat[start:end]
+    if 'return 1;' not in block:
+        raise RuntimeError('t_arena: the shrinking block of arena_realloc_fast no longer returns 1')
+    call = r'arena_scope_validate\(a, s, new_size\);'
+    before = re.search(call, flat[:start]) is not None
+    ret = block.find('return 1;')
+    inside = re.search(call, block[:ret]) is not None
+    return before or inside
 
 
 def probe(repo, cc, flags):
@@ -89,6 +117,7 @@ def constants(repo, strict=True):
             raise RuntimeError('t_arena: %s differs between the normal and the ASan build (%d, %d)' % (k, normal[k], asan[k]))
     out = dict(normal)
     out['frame_mult'] = mult
+    out['shrink_validated'] = 1 if shrink_validated(src) else 0
     out['poison_normal'] = normal['poison']
     out['poison_asan'] = asan['poison']
     del out['poison']
@@ -112,6 +141,8 @@ def generate(repo):
              'Definition poison_normal : N := %d.' % c['poison_normal'],
              'Definition poison_asan : N := %d.' % c['poison_asan'],
              'Definition max_source_locations : N := %d.' % c['max_source_locations'],
+             '(* arena_realloc_fast calls arena_scope_validate before returning a shrunk block *)',
+             'Definition shrink_validated : bool := %s.' % ('true' if c['shrink_validated'] else 'false'),
              '']
     return {'Gen_Arena.v': '\n'.join(lines)}
 
